@@ -363,6 +363,28 @@ def lemma_global_initialiser(p: int) -> bool:
     return accepts(ps_program(), toks) is False        # globals are initialised without calls (and without ??)
 
 
+GINIT = [call(T.Flavor.NONE), [T.IntToken(1), T.OpToken.ADD] + call(T.Flavor.NONE), [LP] + call(T.Flavor.NONE) + [RP], [LS] + call(T.Flavor.NONE) + [CM, T.IntToken(2), RS],
+         [ID('h'), LS] + call(T.Flavor.NONE) + [RS], [T.OpToken.SUB] + call(T.Flavor.NONE), call(T.Flavor.NONE) + [T.OpToken.IS, T.DataType.BYTE],
+         [ID('f'), LP] + call(T.Flavor.NONE) + [RP], [T.OpToken.NOT] + call(T.Flavor.YOU), [T.IntToken(1), T.OpToken.MUL] + call(T.Flavor.DEFEAT),
+         [ID('a'), T.OpToken.SPECULATION, T.IntToken(1)], [LP, ID('a'), T.OpToken.SPECULATION, T.IntToken(1), RP, T.OpToken.ADD, T.IntToken(2)]]
+NG = len(GINIT)
+
+
+def lemma_global_no_calls_anywhere(p: int, form: int) -> bool:
+    """
+    pre: 0 <= p < NG and 0 <= form <= 2
+    post: __return__
+    """
+    # globals are initialised without calls, however deeply the call is nested (initialiser, array length, const global)
+    if form == 0:
+        toks = [T.DataType.INT, ID('g'), T.StmtToken.ASSIGN] + GINIT[p] + [SC]
+    elif form == 1:
+        toks = [T.DataType.INT, ID('g'), LS] + GINIT[p] + [RS, SC]
+    else:
+        toks = [T.StmtToken.CONST, T.DataType.INT, ID('g'), T.StmtToken.ASSIGN] + GINIT[p] + [SC]
+    return accepts(ps_program(), toks) is False
+
+
 def lemma_global_plain_ok(v: int) -> bool:
     """
     pre: 0 <= v <= 3
@@ -392,3 +414,6 @@ for _k in range(NCTX):
 for _f in range(3):
     for _p in range(NS):
         lemma_function_flavour(_f, _p)
+for _p in range(NG):
+    for _f in range(3):
+        lemma_global_no_calls_anywhere(_p, _f)
